@@ -68,6 +68,20 @@ pub fn observe(inst: &Value, modes: &[String], ctx: &mut Ctx, seed: u64) -> Valu
     };
     obs["compile"] = json!({"t":"ok"});
     if has("ir") { obs["ir"] = ir_json(&iq); }
+    if has("irrt") {
+        // C16: the compiled query survives serialisation round trips (JSON and RON; IRQuery and IndexedQuery)
+        let iq2 = iq.clone();
+        obs["irrt"] = panic::catch_unwind(AssertUnwindSafe(move || {
+            let j = serde_json::to_string(&iq2.ir_query).unwrap();
+            let ir_json_ok = serde_json::from_str::<trustfall_core::ir::IRQuery>(&j).map(|b| b == iq2.ir_query).unwrap_or(false);
+            let r = ron::to_string(&iq2.ir_query).unwrap();
+            let ir_ron_ok = ron::from_str::<trustfall_core::ir::IRQuery>(&r).map(|b| b == iq2.ir_query).unwrap_or(false);
+            let r2 = ron::to_string(&*iq2).unwrap();
+            let iq_ron_ok = ron::from_str::<IndexedQuery>(&r2).map(|b| b == *iq2).unwrap_or(false);
+            let reindexed_ok = IndexedQuery::try_from(iq2.ir_query.clone()).map(|b| b == *iq2).unwrap_or(false);
+            json!({"t":"ok","irJson": ir_json_ok, "irRon": ir_ron_ok, "iqRon": iq_ron_ok, "reindexed": reindexed_ok, "bytes": j.len()})
+        })).unwrap_or_else(|p| json!({"t":"panic","err": panic_msg(p)}));
+    }
     let mut args = args_of(inst);
     if !has("rawargs") { args.retain(|k, _| iq.ir_query.variables.contains_key(k)); }
     obs["args"] = Value::Object(args.iter().map(|(k, v)| (k.to_string(), crate::val::from_fv(v))).collect());
